@@ -130,10 +130,28 @@ def render(f, args, order=None):
     return '=%s(%s)' % (f, ','.join(parts[i] for i in order)), inputs
 
 
+_CELLS = {}
+
+
 def evaluate(formula, inputs, shape=(1, 1)):
     out = 'A30' if shape == (1, 1) else 'A30:%s%d' % (cname(shape[1]), 29 + shape[0])
     try:
-        v, _ = sut.cell_eval(out, formula, inputs)
+        if inputs:
+            # formulas over references recur with other cell values: compile once (compiled object only, results
+            # are recomputed from the inputs on every call)
+            key = (out, formula)
+            if key not in _CELLS:
+                if len(_CELLS) > 3000:
+                    _CELLS.clear()
+                dsp = sut.sh.Dispatcher(raises=False)
+                c = sut.Cell(out, formula).compile()
+                if not c.add(dsp):
+                    raise RuntimeError('Cell.add returned nothing')
+                _CELLS[key] = (dsp, c.output)
+            dsp, o = _CELLS[key]
+            v = dsp({k: sut.rng(k, rows) for k, rows in inputs.items()}).get(o, 'MISSING')
+        else:
+            v, _ = sut.cell_eval(out, formula, inputs)
     except sut.Watchdog:
         raise
     except Exception as ex:  # the statement: a value, never an exception
@@ -429,7 +447,8 @@ def _logic(draw, tier='quick'):
     if f == 'IF':
         c = draw(s_arg_scalar(cond))
         n = draw(st.sampled_from([2, 3, 3]))
-        rest = [draw(st.one_of(s_arg_scalar(val), s_arg_scalar(val), st.just(OM))) for _ in range(n - 1)]
+        # explicit weight: one_of flattens nested alternatives, which would make the omitted slot rare
+        rest = [OM if draw(st.integers(0, 3)) == 0 else draw(s_arg_scalar(val)) for _ in range(n - 1)]
         return call('IF', c, *rest)
     if f == 'IFS':
         n = draw(st.integers(1, 3))
@@ -748,7 +767,7 @@ def _grid(tier):
             for n in range(-1, 8):
                 yield call('LEFT', a, L(float(n)))
                 yield call('RIGHT', a, L(float(n)))
-                for m in (-1, 0, 1, 2, 6):
+                for m in ((-1, 0, 2, 6) if q else (-1, 0, 1, 2, 6)):
                     yield call('MID', a, L(float(n)), L(float(m)))
                     yield call('REPLACE', a, L(float(n)), L(float(m)), L('XY'))
             yield call('LEFT', a)
@@ -768,12 +787,12 @@ def _grid(tier):
                 yield call(f, a)
             if q and (a[0] == 'r') == (wi % 2 == 0) and lit_ok:
                 continue  # quick: each word either typed or referenced in the needle tables
-            for nd in (NEEDLES[:7] + NEEDLES[10:16] if q else NEEDLES):
+            for nd in (NEEDLES[:5] + NEEDLES[10:15] if q else NEEDLES):
                 for f in ('FIND', 'SEARCH'):
                     yield call(f, L(nd), a)
-                    for s0 in ((0, 2, 7) if q else (0, 1, 2, 4, 7, 12)):
+                    for s0 in ((0, 2) if q else (0, 1, 2, 4, 7, 12)):
                         yield call(f, L(nd), a, L(float(s0)))
-            for old in ('a', 'aa', '', 'b', 'A', ' ', 'abc'):
+            for old in (('a', 'aa', '', 'A', ' ') if q else ('a', 'aa', '', 'b', 'A', ' ', 'abc')):
                 yield call('SUBSTITUTE', a, L(old), L('X'))
                 for k in ((0, 1, 2, 5) if q else (0, 1, 2, 3, 5, 1.9)):
                     yield call('SUBSTITUTE', a, L(old), L('X'), L(float(k)))
@@ -820,7 +839,7 @@ FLOORS.update({k: ('count', {'quick': 60, 'thorough': 600}) for k in (
 
 def parts(tier, seed):
     q = tier == 'quick'
-    n = 700 if q else 25000
+    n = 600 if q else 25000
     return [
         ('enum', 'grid', _grid(tier), 300, False),
         ('hyp', 'logic', n),
